@@ -107,6 +107,11 @@ def concat(interp, a, b):
     r = wrap(t)
     if isinstance(r, SStr):
         note_concat(interp, r.t, [ta, tb])
+        # other measures over explicit concatenation (pyvc.texts: line_body)
+        interp.st.ghost.setdefault('__explicit_concats__', []).append((r.t, [ta, tb]))
+        hook = interp.st.ghost.get('__on_concat__')
+        if hook is not None:
+            hook(interp, r.t, [ta, tb])
     return r
 
 
@@ -521,7 +526,7 @@ def _strip(interp, s, chars, left, right):
         if right:
             st.assume(z3.InRe(b, cls))
             st.assume(z3.And(*[z3.Not(z3.SuffixOf(z3.StringVal(c), r)) for c in chars]))
-        _decomps(interp, t).append([x for x in (a, r, b) if not (z3.is_string_value(x) and x.as_string() == '')])
+        _decomps(interp, t).append(_dec(interp, [x for x in (a, r, b) if not (z3.is_string_value(x) and x.as_string() == '')]))
         note_concat(interp, t, [a, r, b])
     return wrap(r)
 
@@ -683,6 +688,9 @@ def call_method(interp, recv, name, args, kwargs):
         return concat(interp, recv, args[0])
     if name == '__contains__':
         return wrap(z3.Contains(norm(interp, t), _sn(interp, args[0])))
+    if name == 'splitlines' and (list(args) == [True] or (not args and kwargs == {'keepends': True})):
+        from . import textio
+        return textio.splitlines_keepends(interp, recv)
     if name in ('splitlines',):
         raise Unsupported('str.splitlines on symbolic string (give the function a contract / model)')
     if name in ('removeprefix', 'removesuffix'):
